@@ -72,8 +72,11 @@ def latency_case(latency, offset):
     return bad
 
 
-def malformed_case(delay, badact, at, with_cash=False):
-    if with_cash:
+def malformed_case(delay, badact, at, with_cash=False, array_bounds=False):
+    if array_bounds:
+        # per-contract bounds: IEF capped at 30 % long, SPY may not be shorted; the bad action respects the envelope but not its own bound
+        env = TradingEnv(action_space=BoxPortfolio([SPY, IEF], np.array([0.0, -1.0]), np.array([1.0, 0.3])), prices=prices(), steps_delay=delay)
+    elif with_cash:
         from tradingenv.contracts import Cash
         env = TradingEnv(action_space=BoxPortfolio([Cash(), SPY], -1, 1), prices=prices()[[SPY]], steps_delay=delay)
     else:
@@ -81,7 +84,7 @@ def malformed_case(delay, badact, at, with_cash=False):
     env.reset()
     raised_at = None
     for k in range(7):
-        a = badact if k == at else np.array([0.3, 0.3])
+        a = badact if k == at else (np.array([0.3, 0.2]) if array_bounds else np.array([0.3, 0.3]))
         before = (len(env.broker.track_record), dict(env.broker.holdings_quantity))
         try:
             env.step(a)
@@ -133,14 +136,16 @@ def denotes_case(kind, as_weights, fractional):
 
 
 BAD_ACTIONS = {"short": np.array([0.5]), "out_of_bounds": np.array([0.5, 2.0]), "nan": np.array([np.nan, 0.1]),
-               "2d": np.array([[0.1, 0.1]]), "string": "x", "nan_in_cash_slot": np.array([np.nan, 0.5])}
+               "2d": np.array([[0.1, 0.1]]), "string": "x", "nan_in_cash_slot": np.array([np.nan, 0.5]),
+               "above_own_cap_inside_envelope": np.array([0.1, 0.8]), "below_own_floor_inside_envelope": np.array([-0.5, 0.1])}
+ARRAY_BOUNDS = ("above_own_cap_inside_envelope", "below_own_floor_inside_envelope")
 
 
 def timing(tier, seed):
     acc = Acc("FIFO: delays 0..3 x {box, discrete} with 8 distinct per-step actions, executed allocation compared with the action "
               "submitted d steps earlier (null action first); latency: a second quote at offsets {0, L-1, L, L+1, 2L} s after each "
               "timestep, execution price must be that quote iff offset <= L; malformed actions {wrong length, out of bounds, NaN, 2-D, "
-              "string} injected at steps {0,2} under delays {0,1,2}: rejected no later than due, state unchanged; "
+              "string, outside a per-contract bound but inside the envelope of all bounds} injected at steps {0,2} under delays {0,1,2}: rejected no later than due, state unchanged; "
               "non-trivial = distinct case", "9 timesteps, 2 assets")
     for delay in range(0, 4):
         for kind in ("box", "disc"):
@@ -176,7 +181,7 @@ def timing(tier, seed):
     for delay in (0, 1, 2):
         for nm in BAD_ACTIONS:
             for at in (0, 2):
-                p = malformed_case(delay, BAD_ACTIONS[nm], at, with_cash=(nm == "nan_in_cash_slot"))
+                p = malformed_case(delay, BAD_ACTIONS[nm], at, with_cash=(nm == "nan_in_cash_slot"), array_bounds=nm in ARRAY_BOUNDS)
                 acc.case(("malformed", delay, nm, at))
                 acc.validated += 1
                 if p:
@@ -248,7 +253,8 @@ def rerun(inp):
     elif c == "latency":
         bad = latency_case(inp["latency"], inp["offset"])
     elif c == "malformed":
-        bad = malformed_case(inp["delay"], BAD_ACTIONS[inp["action"]], inp["at"], with_cash=(inp["action"] == "nan_in_cash_slot"))
+        bad = malformed_case(inp["delay"], BAD_ACTIONS[inp["action"]], inp["at"], with_cash=(inp["action"] == "nan_in_cash_slot"),
+                             array_bounds=inp["action"] in ARRAY_BOUNDS)
     elif c == "denotes":
         bad = denotes_case(inp["space"], inp["as_weights"], inp["fractional"])
     else:
